@@ -260,6 +260,14 @@ Theorem C13_open2n2_generated_find_is_model_find :
 Proof. exact OpenInstances.open2n2_generated_find_is_model. Qed.
 Print Assumptions C13_open2n2_generated_find_is_model_find.
 
+Theorem C13_open8_openn1_generated_find_is_model_find :
+  forall mc n hash s k r ic,
+  0 <= n <= 63 -> 0 <= OpenInstances.n1_dec mc n (OpenTable.bd _ s (HSFindRefine.home n hash k)) < 2 ^ 64 - 1 ->
+  OpenInstances.n1_gen_find mc n hash s k = Ok (r, ic) ->
+  (r <> 0 <-> OpenInstances.n1_find mc n (HSFindRefine.home n hash) s k = true) /\ (r <> 0 -> In k (OpenTable.bk _ s ic)).
+Proof. exact OpenInstances.open8_generated_find_is_model. Qed.
+Print Assumptions C13_open8_openn1_generated_find_is_model_find.
+
 (* The encoder and probe-step code regenerated from BucketOpen2N2<.,1,true>, <.,2,true> and <.,3,false> is
    syntactically the code the theorems above are about (<.,3,true>): they hold for Open2N2<1..3>, both variants. *)
 Theorem C13_open2n2_all_instantiations_same_code :
